@@ -10,7 +10,7 @@ use serde_json::Value;
 pub static ENGINE: Engine = Engine {
     prop: "C03",
     level: "model_checking",
-    rule: "state-space closure through BDDEnv<usize>: states = Boolean functions over k ordered variables with non-adjacent ids, held as the diagrams the engine itself produced; BFS from {true,false,var(s)} under not/and/or/implies/eq/xor/nor/nand until a round adds nothing (must reach all 2^(2^k)); then EVERY operator on EVERY operand tuple (k=2 and k=3 complete for unary and binary, ite complete for k=2 and with the condition restricted to constants/variables for k=3 in quick, complete 256^3 in thorough); plus the same sweep with operands that were never interned in the operating environment (plain diagrams as obtained from BDD::from or another environment), F_4 x basis sweeps and a 185-member family over 6 variables. Oracle: truth table of the result = pointwise operation of the operand tables, operands structurally unchanged. distinct = distinct (operator, operand tuple)",
+    rule: "state-space closure through BDDEnv<usize>: states = Boolean functions over k ordered variables with non-adjacent ids, held as the diagrams the engine itself produced; BFS from {true,false,var(s)} under not/and/or/implies/eq/xor/nor/nand until a round adds nothing (must reach all 2^(2^k)); then EVERY operator on EVERY operand tuple (k=2 and k=3 complete for unary and binary, ite complete for k=2 and with the condition restricted to constants/variables for k=3 in quick, complete 256^3 in thorough); plus the same sweep with operands that were never interned in the operating environment (plain diagrams as obtained from BDD::from or another environment), F_4 x basis sweeps and a 185-member family over 6 variables. Oracle: truth table of the result = pointwise operation of the operand tables, operands structurally unchanged. Thorough tier additionally: COMPLETE operand pairs over F_4 (2^16 x 2^16 = 4.3e9 per connective) for each of the API's seven binary connectives; every unary/binary connective on all of F_3 in a BDDEnv<NamedSymbol> whose ids agree in their low 32 bits (both tiers). distinct = distinct (operator, operand tuple)",
     assumptions: &["truth tables are read by an independent walker that addresses variables by symbol", "k <= 4 variables (small scope in the number of variables; closure argument of DESIGN.md §1 makes depth unbounded)"],
     max_shards: 64,
     run,
@@ -93,10 +93,7 @@ fn run(ctx: &mut Ctx) {
     f4_sweep(ctx, ORACLE, TAG);
     if ctx.thorough() {
         // complete F_4 x F_4 for every connective (2^32 pairs each)
-        let ops: Vec<crate::refl::Bin> = match std::env::var("VCHECK_PAIRS4_OPS") {
-            Ok(v) => ALL_BINS.iter().copied().filter(|b| v.split(',').any(|x| x == format!("{b:?}").to_lowercase())).collect(),
-            Err(_) => ALL_BINS.to_vec(),
-        };
+        let ops = pairs4_ops();
         pairs4_sweep(ctx, ORACLE, TAG, &ops, "pairs_k4_complete");
     }
     sweep_named_wide(ctx, ORACLE, TAG);
